@@ -601,7 +601,7 @@ func (m *Machine) applyContract(st *State, fr *Frame, instr ssa.Instruction, fc 
 	m.ctx.nfresh++
 	st.opaque = m.ctx.nfresh
 	defer func() { st.opaque = 0 }()
-	for _, e := range fc.Ensures {
+	for ei, e := range fc.Ensures {
 		// clauses that mention locals of the callee are internal to its proof: not part of what a caller may assume
 		internal := false
 		for _, n := range paramNames(e) {
@@ -631,9 +631,13 @@ func (m *Machine) applyContract(st *State, fr *Frame, instr ssa.Instruction, fc 
 				}
 			}
 			delete(definable, src.Arr.id)
+			st.defDeps = append(append([]string{}, st.defDeps...), fmt.Sprintf("%s|%d", name, ei))
 			continue
 		}
 		t = m.resolveDefs(st, t)
+		if m.origins != nil {
+			m.origins[t.id] = append(m.origins[t.id], fmt.Sprintf("%s|%d", name, ei))
+		}
 		st.assume(t)
 	}
 	st.definable = saved
